@@ -4,6 +4,7 @@ import (
 	"encoding/json"
 	"errors"
 	"fmt"
+	"net/http"
 	"net/http/httptest"
 	"os"
 	"os/exec"
@@ -11,12 +12,15 @@ import (
 	"reflect"
 	"sort"
 	"strings"
+	"sync"
+	"time"
 
 	"github.com/vicanso/pike/cache"
 	"github.com/vicanso/pike/compress"
 	"github.com/vicanso/pike/config"
 	"github.com/vicanso/pike/location"
 	"github.com/vicanso/pike/server"
+	"github.com/vicanso/pike/store"
 	"github.com/vicanso/pike/upstream"
 	"pikeverif/internal/hx"
 )
@@ -94,6 +98,9 @@ func genConfig(r *hx.Rand, valid bool, sum *hx.Summary) *genCfg {
 			c.Store = "not a url"
 			ok[1] = false
 			sum.Count("bad:store")
+		} else if valid {
+			// reconf sequences: c1 and c2 share one persistent store, c3 has none (a cache keeps its store for the whole sequence: cache settings are restart-only)
+			c.Store = map[string]string{"c1": "fake://shared", "c2": "fake://shared", "c3": ""}[c.Name]
 		}
 		if bad(3) {
 			c.Size = 0
@@ -337,7 +344,7 @@ func serverResolves(addr string) bool {
 func runConfig(seed uint64, n int, tier string, out string, replay string) {
 	rnd := hx.NewRand(seed)
 	sum := hx.NewSummary("config", seed)
-	sum.Rule = "one case = one generated configuration (0-2 compress profiles, 1-2 caches, 1-3 upstreams, 1-4 locations, 1-3 servers; names drawn from small pools so duplicates occur); 45% valid; the others carry 1-3 defects: each kind of dangling reference (upstream on any location incl. later ones, location / cache / compress on a server) and each kind of malformed field (durations, sizes, regexps, addresses, url paths, divide pairs, hostnames, policy, names too long or empty, empty required lists); Validate's verdict is compared, accepted configurations are applied through the five Reset functions and every server is probed; every accepted configuration also goes through Write/Read (YAML file client) with every remark field set to a string from a pool of 35 that need quoting (multi-line with and without final newline, leading/trailing blanks, YAML keywords, numbers, indicators, unicode, CRLF) and is compared field by field; a Write or Read error on an accepted configuration is reported too; non-trivial = rejected for a reference error or accepted with >= 2 servers; distinct by configuration"
+	sum.Rule = "one case = one generated configuration (0-2 compress profiles, 1-2 caches, 1-3 upstreams, 1-4 locations, 1-3 servers; names drawn from small pools so duplicates occur); 45% valid; the others carry 1-3 defects: each kind of dangling reference (upstream on any location incl. later ones, location / cache / compress on a server) and each kind of malformed field (durations, sizes, regexps, addresses, url paths, divide pairs, hostnames, policy, names too long or empty, empty required lists); Validate's verdict is compared, accepted configurations are applied through the five Reset functions and every server is probed; every accepted configuration also goes through Write/Read (YAML file client) with every remark field set to a string from a pool of 35 that need quoting (multi-line with and without final newline, leading/trailing blanks, YAML keywords, numbers, indicators, unicode, CRLF) and is compared field by field, twice in a row through the same client (second document: other remarks, sometimes fewer sections); a Write or Read error on an accepted configuration is reported too; non-trivial = rejected for a reference error or accepted with >= 2 servers; distinct by configuration"
 	header := "From Coq Require Import List NArith ZArith.\nImport ListNotations.\nFrom Pike Require Import Base.Bytes Model.Config Corr.ConfigCorr.\n"
 	w := hx.NewCaseWriter(out, "config", header, "list cf_case", "check_cases", 60, sum)
 	distinct := hx.NewDistinct()
@@ -376,17 +383,42 @@ func runConfig(seed uint64, n int, tier string, out string, replay string) {
 						y, _ := json.Marshal(want)
 						sum.ImplViolations = append(sum.ImplViolations, map[string]interface{}{"property": "C17", "kind": kind, "error": fmt.Sprint(err), "config": string(y)})
 					}
-					if e := config.Write(cp); e != nil {
-						fail("yaml-write-error", e)
-					} else if back, e2 := config.Read(); e2 != nil {
-						fail("yaml-read-error", e2)
-					} else {
-						back.YAML, back.Version = "", ""
-						want.YAML, want.Version = "", ""
-						if !reflect.DeepEqual(normalizeCfg(back), normalizeCfg(want)) {
-							fail("yaml-roundtrip", nil)
+					// saved twice through the same client (the second document has other remarks, usually a
+					// different length, and in half of the cases fewer sections), read back after each save
+					for round := 0; round < 2; round++ {
+						if round == 1 {
+							cp = deepCopyCfg(&g.cfg)
+							decorateRemarks(cp, rnd)
+							if rnd.Bool() && len(cp.Compresses) > 0 {
+								used := map[string]bool{}
+								for _, sv := range cp.Servers {
+									used[sv.Compress] = true
+								}
+								keep := cp.Compresses[:0:0]
+								for _, c := range cp.Compresses {
+									if used[c.Name] {
+										keep = append(keep, c)
+									}
+								}
+								cp.Compresses = keep
+							}
+							want = deepCopyCfg(cp)
 						}
-						sum.Count("yaml-roundtrip")
+						if e := config.Write(cp); e != nil {
+							fail(fmt.Sprintf("yaml-write-error (save %d)", round+1), e)
+							break
+						} else if back, e2 := config.Read(); e2 != nil {
+							fail(fmt.Sprintf("yaml-read-error (save %d)", round+1), e2)
+							break
+						} else {
+							back.YAML, back.Version = "", ""
+							want.YAML, want.Version = "", ""
+							if !reflect.DeepEqual(normalizeCfg(back), normalizeCfg(want)) {
+								fail(fmt.Sprintf("yaml-roundtrip (save %d)", round+1), nil)
+								break
+							}
+							sum.Count("yaml-roundtrip")
+						}
 					}
 					_ = config.Close()
 				}
@@ -469,6 +501,9 @@ func observeRegistries(addrs, upNames, cacheNames, profNames, locNames []string)
 	}
 	for _, n := range cacheNames {
 		o.Caches = append(o.Caches, fmt.Sprintf("(%s, %s)", hx.Str(n), hx.Bool(cache.GetDispatcher(n) != nil)))
+		if n == "c1" || n == "c2" {
+			o.Extra["cache-store:"+n] = persistProbe(n)
+		}
 	}
 	for _, n := range profNames {
 		srv := compress.Get(n)
@@ -553,6 +588,7 @@ func runReconfChild(seed uint64, n int, tier string, out string, replay string) 
 	if err := json.Unmarshal(b, &in); err != nil {
 		panic(err)
 	}
+	registerFakeStores()
 	applyConfig(&in.Config)
 	o := observeRegistries(in.Probe.Addrs, in.Probe.Ups, in.Probe.Caches, in.Probe.Profiles, in.Probe.Locs)
 	fmt.Println("ROBS " + o.coq())
@@ -563,11 +599,12 @@ func runReconfChild(seed uint64, n int, tier string, out string, replay string) 
 func runReconf(seed uint64, n int, tier string, out string, replay string) {
 	rnd := hx.NewRand(seed)
 	sum := hx.NewSummary("reconf", seed)
-	sum.Rule = "one case = a sequence of 2-5 valid configurations (sections added / removed / modified, optional fields set and unset: compress levels, min length, filter, upstream options, location constraints; profile named bestCompression overridden and dropped) applied through the five Reset functions in main.update's order to one process, observed through the exported getters (server bindings and thresholds, upstream options, dispatcher presence and identity, compress levels per profile name, routing probes over 3 hosts x 3 URIs x location names; Go-side additionally every upstream's full option set and server pool, and for every routing probe the chosen location's rewrites, added headers/query, timeout and the rewritten path) and compared with a FRESH child process that applies only the last configuration; non-trivial = the last configuration differs from the previous one in some section; distinct by the sequence"
+	sum.Rule = "one case = a sequence of 2-5 valid configurations (sections added / removed / modified, optional fields set and unset: compress levels, min length, filter, upstream options, location constraints; profile named bestCompression overridden and dropped) applied through the five Reset functions in main.update's order to one process, observed through the exported getters (server bindings and thresholds, upstream options, dispatcher presence and identity, compress levels per profile name, routing probes over 3 hosts x 3 URIs x location names; Go-side additionally (caches c1 and c2 share one persistent store) whether a response cached through each surviving store-backed cache reaches the store, every upstream's full option set and server pool, and for every routing probe the chosen location's rewrites, added headers/query, timeout and the rewritten path) and compared with a FRESH child process that applies only the last configuration; non-trivial = the last configuration differs from the previous one in some section; distinct by the sequence"
 	header := "From Coq Require Import List NArith ZArith.\nImport ListNotations.\nFrom Pike Require Import Base.Bytes Model.Config Corr.ConfigCorr.\n"
 	w := hx.NewCaseWriter(out, "reconf", header, "list rc_case", "check_reconf", 10, sum)
 	distinct := hx.NewDistinct()
 	self, _ := os.Executable()
+	registerFakeStores()
 	tmpdir, _ := os.MkdirTemp("", "pikeverif-reconf-")
 	defer os.RemoveAll(tmpdir)
 	for i := 0; i < n; i++ {
@@ -789,3 +826,66 @@ func decorateRemarks(c *config.PikeConfig, r *hx.Rand) {
 }
 
 func pickL(r *hx.Rand, xs [][]string) []string { return xs[r.Intn(len(xs))] }
+
+// closableStore: in-memory store.Store that refuses everything once closed
+type closableStore struct {
+	mu     sync.Mutex
+	data   map[string][]byte
+	closed bool
+}
+
+func (m *closableStore) Get(key []byte) ([]byte, error) {
+	m.mu.Lock()
+	defer m.mu.Unlock()
+	if m.closed {
+		return nil, errors.New("store is closed")
+	}
+	v, ok := m.data[string(key)]
+	if !ok {
+		return nil, store.ErrNotFound
+	}
+	return append([]byte{}, v...), nil
+}
+func (m *closableStore) Set(key []byte, data []byte, ttl time.Duration) error {
+	m.mu.Lock()
+	defer m.mu.Unlock()
+	if m.closed {
+		return errors.New("store is closed")
+	}
+	m.data[string(key)] = append([]byte{}, data...)
+	return nil
+}
+func (m *closableStore) Delete(key []byte) error {
+	m.mu.Lock()
+	defer m.mu.Unlock()
+	if m.closed {
+		return errors.New("store is closed")
+	}
+	delete(m.data, string(key))
+	return nil
+}
+func (m *closableStore) Close() error {
+	m.mu.Lock()
+	defer m.mu.Unlock()
+	m.closed = true
+	return nil
+}
+
+var sharedStore = &closableStore{data: map[string][]byte{}}
+
+func registerFakeStores() { store.VerifRegister("fake://shared", sharedStore) }
+
+// persistProbe: does a cacheable response stored through this cache reach its persistent store?
+func persistProbe(name string) string {
+	d := cache.GetDispatcher(name)
+	if d == nil {
+		return "absent"
+	}
+	key := []byte("GET probe.example /persist/" + name)
+	hc := d.GetHTTPCache(key)
+	if st, _ := hc.Get(); st == cache.StatusFetching {
+		hc.Cacheable(&cache.HTTPResponse{StatusCode: 200, Header: http.Header{"X-P": []string{name}}, RawBody: []byte("p")}, 60)
+	}
+	_, err := sharedStore.Get(key)
+	return fmt.Sprintf("persisted=%v", err == nil)
+}
